@@ -35,23 +35,48 @@ def run(cmd, cwd=None, env=None, timeout=None, check=False):
     return p.returncode, p.stdout, time.time() - t0
 
 
-def sync_gomod():
-    """harness/go.mod mirrors /repo/go.mod (so the harness builds whatever the tree requires)."""
+def _gomod_text():
     src = open(os.path.join(REPO, "go.mod")).read().splitlines()
     body = [l for l in src if not l.startswith("module ")]
     out = ["module verifharness", ""] + body + ["", "require github.com/codelaboratoryltd/bng v0.0.0", "",
                                                   "replace github.com/codelaboratoryltd/bng => " + REPO, ""]
-    txt = "\n".join(out)
-    p = os.path.join(HARNESS, "go.mod")
+    return "\n".join(out)
+
+
+def sync_gomod(hdir=None):
+    """harness/go.mod mirrors /repo/go.mod (so the harness builds whatever the tree requires)."""
+    hdir = hdir or HARNESS
+    txt = _gomod_text()
+    p = os.path.join(hdir, "go.mod")
     if not os.path.exists(p) or open(p).read() != txt:
-        open(p, "w").write(txt)
-    shutil.copyfile(os.path.join(REPO, "go.sum"), os.path.join(HARNESS, "go.sum"))
+        tmp = p + ".tmp%d" % os.getpid()
+        open(tmp, "w").write(txt)
+        os.replace(tmp, p)
+    sums = os.path.join(hdir, "go.sum")
+    src = open(os.path.join(REPO, "go.sum")).read()
+    if not os.path.exists(sums) or open(sums).read() != src:
+        tmp = sums + ".tmp%d" % os.getpid()
+        open(tmp, "w").write(src)
+        os.replace(tmp, sums)
+
+
+def harness_dir(work):
+    """The harness module to build. Against /repo itself that is /verif/harness; against another tree
+    (VERIF_REPO=<worktree>) a private copy is used so concurrent checks never see a foreign replace directive."""
+    if os.path.realpath(REPO) == "/repo":
+        sync_gomod(HARNESS)
+        return HARNESS
+    priv = os.path.join(work, "harness_copy")
+    if not os.path.exists(priv):
+        shutil.copytree(HARNESS, priv, ignore=shutil.ignore_patterns("*.test", "out"))
+    sync_gomod(priv)
+    return priv
 
 
 def build_harness(pkg, work):
-    sync_gomod()
+    hdir = harness_dir(work)
     binp = os.path.join(work, "harness_" + pkg.strip("./").replace("/", "_") + ".test")
-    rc, out, dt = run(["go", "test", "-tags", "verif", "-c", "-o", binp, pkg], cwd=HARNESS, env=GOENV, timeout=1200)
+    rc, out, dt = run(["go", "test", "-tags", "verif", "-c", "-o", binp, pkg], cwd=hdir, env=GOENV, timeout=1200)
     if rc != 0 or not os.path.exists(binp):
         raise Infra("harness build failed for %s:\n%s" % (pkg, out[-6000:]))
     log("built %s in %.1fs" % (pkg, dt))
